@@ -1139,7 +1139,7 @@ def _flag_locals(fnode, is_flag_read):
     return out
 
 MANIFEST = {
-    "technique": "static analysis: parallel-stage discovery, CFG path queries with constant propagation of local flags (handshake ordering, swallowed failures), truth-table implication on loop-exit path conditions, term-level sibling agreement of serial and parallel guards, receive-helper recognition; worker-pool objects, generator context managers, serving helpers and local closures taken apart at source level before the stage analysis (scalar replacement of local helper objects); who-may-call rule: the feeder join of a work queue is never cancelled (cancel_join_thread)",
+    "technique": "static analysis: parallel-stage discovery, CFG path queries with constant propagation of local flags (handshake ordering, swallowed failures), truth-table implication on loop-exit path conditions, term-level sibling agreement of serial and parallel guards, receive-helper recognition; worker-pool objects, generator context managers, serving helpers and local closures taken apart at source level before the stage analysis (scalar replacement of local helper objects); who-may-call rule: the feeder join of a work queue is never cancelled (cancel_join_thread); generator context managers around the dispatch loops cannot swallow an exception of the loop (shared with C19); the item source yields one item per input (shared with C20)",
     "text": "Decides structural premises R1-R6 of the queue hand-off protocol on every path of every discovered parallel stage and its worker; with the documented multiprocessing.Queue/Event contract these imply exactly-once delivery and termination for all interleavings (DESIGN.md C03 lemma). Not a behavioural exploration: no schedule is executed.",
     "note": "Trusted: CPython/multiprocessing Queue+Event contracts (close/join_thread flush, get timeout semantics, exactly-once receipt). Not decided: OS-level timing beyond that contract.",
 }
